@@ -111,6 +111,11 @@ func genC15Request(r *Rng) c15req {
 		q := rq.q
 		io.QueryIn = &q
 	}
+	if r.P(0.08) {
+		// a query string url.ParseQuery rejects: part of "the form (body plus query, as net/http defines it)"
+		io.QueryIn = nil
+		io.Query = Pick(r, []string{"a=%zz", "n=%2", "a=1;b=2", "%"})
+	}
 	// the body is whatever the content type suggests, or deliberately something else
 	kind := "json"
 	if strings.HasPrefix(base, "application/x-www-form-urlencoded") || (r.P(0.2) && !strings.HasPrefix(base, "application/json")) {
@@ -413,7 +418,10 @@ func runC15(x *X) *Violation {
 		if io.QueryIn != nil {
 			q = *io.QueryIn
 		}
-		if bodyParsed {
+		if io.Query != "" {
+			// malformed query string: the form as a whole cannot be decoded, whatever the method
+			expectFail = "invalid_form"
+		} else if bodyParsed {
 			if faultErr {
 				expectFail = "invalid_form"
 			} else if class == "malformed" && delivered == body {
@@ -427,6 +435,10 @@ func runC15(x *X) *Violation {
 		have := bodyParsed && class == "valid"
 		seen = seenFlat(root, mergeForm(root, fRec, q, have, io.QueryIn != nil), "form")
 	default:
+		if io.Query != "" {
+			x.Probes["malformed_query_no_oracle"]++
+			return nil // query source with a malformed query string: outside what the statement settles
+		}
 		q := VM()
 		if io.QueryIn != nil {
 			q = *io.QueryIn
